@@ -17,10 +17,10 @@ import (
 	"context"
 	"fmt"
 	"net"
+	"time"
 
 	"github.com/honeytrap/honeytrap/director"
 	"github.com/honeytrap/honeytrap/event"
-	"github.com/honeytrap/honeytrap/listener"
 	"github.com/honeytrap/honeytrap/pushers"
 	"github.com/miekg/dns"
 )
@@ -57,7 +57,9 @@ func (s *dnsProxy) Handle(ctx context.Context, conn net.Conn) error {
 
 	buff := [65535]byte{}
 
-	if _, ok := conn.(*listener.DummyUDPConn); ok {
+	// the server hands services a wrapped connection: tell the transports
+	// apart by the address, not by the concrete connection type
+	if conn.RemoteAddr().Network() == "udp" {
 		n, err := conn.Read(buff[:])
 		if err != nil {
 			return err
@@ -91,6 +93,9 @@ func (s *dnsProxy) Handle(ctx context.Context, conn net.Conn) error {
 			event.Custom("dns.message", fmt.Sprintf("Querying for: %#q", req.Question)),
 			event.Custom("dns.questions", req.Question),
 		))
+
+		// a backend that does not answer must not hold the handler for ever
+		conn2.SetReadDeadline(time.Now().Add(30 * time.Second))
 
 		if n, err = conn2.Read(buff[:]); err != nil {
 			return err
@@ -101,7 +106,7 @@ func (s *dnsProxy) Handle(ctx context.Context, conn net.Conn) error {
 		}
 
 		return err
-	} else if _, ok := conn.(*net.TCPConn); ok {
+	} else if conn.RemoteAddr().Network() == "tcp" {
 		n, err := conn.Read(buff[:])
 		if err != nil {
 			return err
@@ -135,6 +140,9 @@ func (s *dnsProxy) Handle(ctx context.Context, conn net.Conn) error {
 		if _, err = conn2.Write(buff[:n]); err != nil {
 			return err
 		}
+
+		// a backend that does not answer must not hold the handler for ever
+		conn2.SetReadDeadline(time.Now().Add(30 * time.Second))
 
 		if n, err = conn2.Read(buff[:]); err != nil {
 			return err
